@@ -21,7 +21,7 @@ func init() {
 	plans["C16"] = map[string]tierPlan{"quick": {0, 240}, "thorough": {0, 2400}}
 	propMetas["C16"] = propMeta{Level: "fault_enumeration",
 		Rule:        "one case = one storage fault applied to one stored flow definition (every definition found in the repository's testdata/specdata, all spec versions 13.0-13.6 and legacy, plus generated flows), then consumed every way a host consumes a stored definition (MigrateToLatest, MigrateToVersion to each version, Clone, ReadFlow, lazy Flows().Get through the asset store, Inspect/marshal/ChangeLanguage, NewSession + reload + resumes). Single faults are enumerated exhaustively per definition: truncation at every byte offset, and for every JSON path deletion, 11 wrong-type replacements and a duplicate member; plus seeded multi-fault combinations and bit flips. non-trivial = the faulty bytes differ from the original and were rejected by at least one consumer or accepted by all; distinct = distinct (definition, fault) pairs",
-		Assumptions: []string{"decides only the rejection clause of C16 (malformed/truncated/hostile input => error, never panic or hang); migration equivalence of valid definitions is monitored on the corpus, not claimed", "exhaustive: true refers to the single-fault space of the corpus definitions listed under exhaustive_definitions"}}
+		Assumptions: []string{"decides the rejection clause of C16 (malformed/truncated/hostile input => error, never panic or hang) and, on every damaged definition the library still accepts, the stability clauses (UUID, nodes/exits/destinations, legacy entry first, current untouched, second migration no-op, stepwise == one go, read-marshal-read fixpoint); that expression rewrites preserve what templates evaluate to is a pure function of the template and not claimed", "exhaustive: true refers to the single-fault space of the corpus definitions listed under exhaustive_definitions"}}
 }
 
 func repoDir() string {
@@ -117,6 +117,7 @@ func c16Worker(prop, tier string, seed uint64, from, to, stride int, deadline in
 			ts = keep
 		}
 		faults = append(faults, ts...)
+		faults = append([]world.DefFault{{Kind: "none"}}, faults...) // the definition as stored
 		nm := nmulti
 		if generated {
 			nm = nmulti / 10
@@ -130,7 +131,33 @@ func c16Worker(prop, tier string, seed uint64, from, to, stride int, deadline in
 		}
 		for _, f := range faults {
 			faulty := world.ApplyDefFault(d.Bytes, f)
-			o := cw.Consume(faulty)
+			// the stability clauses are checked wherever the damaged bytes have one reading (no duplicate members, no bit noise)
+			inv := f.Kind == "delete_path" || f.Kind == "replace_path" || f.Kind == "typeswap" || f.Kind == "none"
+			o := cw.Consume(faulty, inv)
+			if inv {
+				res.Probes["stability_clauses_checked"]++
+				if o.Invariant == "" && o.InvariantDetail == "accepted" {
+					res.Probes["stability_clauses_held_on_accepted_definition"]++
+				}
+			}
+			if o.Invariant != "" {
+				fp := "C16.stability/" + o.Invariant
+				if k := known.match("C16", fp); k != nil {
+					res.KnownSeen[k.Fingerprint]++
+				} else {
+					dup := 0
+					for _, c := range res.Candidates {
+						if c.Fingerprint == fp {
+							dup++
+						}
+					}
+					if dup == 0 && len(res.Candidates) < 6 {
+						sp, _ := json.Marshal(c16Special{Def: d.ID, Fault: f})
+						res.Candidates = append(res.Candidates, Candidate{RunIndex: di, Seed: seed, Prop: "C16", Oracle: "stability", Fingerprint: fp,
+							Msg: fmt.Sprintf("definition %s with storage fault %s is accepted (migrates and loads) but breaks a stability clause: %s: %s", d.ID, f, o.Invariant, clipS(o.InvariantDetail, 2500)), Special: sp})
+					}
+				}
+			}
 			res.Runs++
 			res.Faults["def_"+f.Kind]++
 			if string(faulty) != string(d.Bytes) {
@@ -245,7 +272,17 @@ func c16Replay(rf *ReplayFile, path string, quiet bool) int {
 	if !quiet {
 		fmt.Printf("definition %s, fault %s\nfaulty bytes: %s\n", sp.Def, sp.Fault, clipS(string(faulty), 3000))
 	}
-	o := world.NewC16World(def).Consume(faulty)
+	o := world.NewC16World(def).Consume(faulty, rf.Oracle == "stability")
+	if o.Invariant != "" {
+		fp := "C16.stability/" + o.Invariant
+		fmt.Printf("accepted, but %s: %s\n", o.Invariant, clipS(o.InvariantDetail, 1500))
+		if fp == rf.Fingerprint {
+			fmt.Printf("VIOLATION property=C16 replay=%s\n", path)
+			return 1
+		}
+		fmt.Printf("a different clause than recorded (%s vs %s)\n", fp, rf.Fingerprint)
+		return 2
+	}
 	if o.Panic != "" {
 		fp := "C16.panic/" + strings.Split(o.Consumer, "(")[0] + "/" + panicSiteOf(o.Panic)
 		fmt.Printf("%s panics: %s\n", o.Consumer, clipS(o.Panic, 1500))
@@ -256,6 +293,6 @@ func c16Replay(rf *ReplayFile, path string, quiet bool) int {
 		fmt.Printf("a different panic than recorded (%s vs %s)\n", fp, rf.Fingerprint)
 		return 2
 	}
-	fmt.Println("not reproduced: no consumer panics on this tree")
+	fmt.Println("not reproduced: no consumer panics and every stability clause holds on this tree")
 	return 0
 }
